@@ -1194,6 +1194,21 @@ func (env *Environment) setState(state string) {
 	env.Sm.SetState(state)
 }
 
+// ForceError moves the environment to ERROR without a state machine event: the last resort when the GO_ERROR
+// transition itself could not be completed. It takes its turn behind a transition or teardown in progress, and an
+// environment that was torn down meanwhile stays DONE.
+func (env *Environment) ForceError() {
+	if env == nil {
+		return
+	}
+	env.transitionMutex.Lock()
+	defer env.transitionMutex.Unlock()
+	if env.Sm.Current() == "DONE" {
+		return
+	}
+	env.setState("ERROR")
+}
+
 func (env *Environment) subscribeToWfState(taskman *task.Manager) {
 	go func() {
 		wf := env.Workflow()
